@@ -118,6 +118,8 @@ impl GraphRunner for Graph {
         loop {
             let mut done = true;
             let mut all_idle = true;
+            let activity = crate::circular_buffer::STREAM_ACTIVITY
+                .load(std::sync::atomic::Ordering::Relaxed);
             #[cfg(rustradio_verif)]
             crate::verif::emit("\"ev\":\"g_pass\"".to_string());
             if self.cancel_token.is_canceled() {
@@ -174,10 +176,16 @@ impl GraphRunner for Graph {
             }
             #[cfg(rustradio_verif)]
             crate::verif::emit(format!("\"ev\":\"g_pass_end\",\"done\":{done},\"idle\":{all_idle}"));
-            if done {
+            // A block may move data and still return a wait or EOF status. Then
+            // other blocks may be able to continue, so this was not the last
+            // pass.
+            let moved = activity
+                != crate::circular_buffer::STREAM_ACTIVITY
+                    .load(std::sync::atomic::Ordering::Relaxed);
+            if done && !moved {
                 break;
             }
-            if all_idle {
+            if all_idle && !moved {
                 let idle_sleep = std::time::Duration::from_millis(10);
                 trace!("No output or consumption from any block. Sleeping a bit.");
                 std::thread::sleep(idle_sleep);
